@@ -54,7 +54,8 @@ def main(argv=None) -> int:
                     f"{aud['twins_silent']}/{aud['twins']} behaviour-preserving twins silent, {aud['unmodelled_withheld']}/{aud['unmodelled']} unmodelled constructs withheld, "
                     f"{aud['skipped_anchor_absent']} skipped (anchor text absent from this tree)"
                 )
-                for pr in aud["problems"]:
+                print(f"  SENSITIVITY: {aud.get('seeded_reported', 0)}/{aud.get('seeded_changes', 0) - aud.get('seeded_skipped', 0)} confirmed sub-agent changes kept for this property reported ({aud.get('seeded_skipped', 0)} skipped: no longer break it / do not apply to this tree)")
+                for pr in aud["problems"] + aud.get("seeded_problems", []):
                     print(f"  SENSITIVITY-PROBLEM: {pr}")
         code = report.finish()
     except AnalysisError as exc:
